@@ -76,6 +76,11 @@ CLAIMS["C12"] = dict(
     note="NOT decided (outside this family): the quantifier over orders and delays of acknowledgements and hang freedom; assumed: thespian delivers each message once, FIFO per pair, handlers run atomically. One genuine defect (daemon departure raised TypeError instead of reporting) was found by this check and repaired by a fix: commit.",
     design="§4 C12",
 )
+CLAIMS["C09"] = dict(
+    text="Proofs, over ghost send traces, of the per-handler guarantees of the failure chain: no_retry.guard turns an exception of ANY class raised by a handler into exactly one BenchmarkFailure to the original sender (and passes results through otherwise); DriverActor forwards BenchmarkFailure / BenchmarkCancelled / PoisonMessage exactly once to race control and reports the premature exit of ANY worker (index 0 included) unless exiting; BenchmarkActor marks the coordinator failed / cancelled and forwards the same message; BenchmarkCoordinator.on_benchmark_complete computes, stores and prints final results iff the race was neither cancelled nor failed.",
+    note="NOT decided (outside this family): 'in bounded time', hang freedom and the interleaving quantifier; Worker/TaskExecutionActor/TrackPreparationActor forwarding and racecontrol.race() are covered under C01/C07 or not yet. Assumed: thespian delivery.",
+    design="§4 C09",
+)
 NA_DEFAULT = "check not built yet in this revision (the framework is under construction; see DESIGN.md §6b build order)"
 checks = []
 for p in props:
